@@ -153,7 +153,10 @@ def one_session(args):
             detail.setdefault('script_output', outp[-2500:])
         events.append(e)
         return v
-    runtest('fresh')
+    # a history without a test run straight after generation: the command changes, is run once by hand, then the tests run
+    by_hand_history = nperturb > 0 and tid % 4 == 2
+    if not by_hand_history:
+        runtest('fresh')
     # perturbations: one change at a time, each followed by a run of the generated test
     targets = sorted(case['names']) + ([] if case['no_stdout'] else ['STDOUT']) + ([] if case['no_stderr'] else ['STDERR']) + ['exit']
     cwd_files = [k for k in sorted(case['names']) if not case['names'][k].startswith('$TMPDIR/') and not case['names'][k].startswith('~')]
@@ -242,6 +245,12 @@ def one_session(args):
         gl.set_behaviour(case, beh)
         events.append({'tid': tid, 'ev': 'Perturb', 'raised': 'none', 'target': t, 'what': what, 'beh': beh_abstract(case, beh, ids)})
         detail.setdefault('perturbations', []).append({'target': t, 'what': what})
+        if by_hand_history and step == 0:
+            try:
+                gl.run_command_by_hand(case)
+                detail['command_run_by_hand_before_the_first_test_run'] = True
+            except Exception:
+                pass
         runtest('perturbed', beh_abstract(case, beh, ids))
         # back to the original behaviour: the test passes again
         gl.set_behaviour(case, case['beh'])
